@@ -1,6 +1,13 @@
+mod accessseq;
+mod cacheseq;
 mod checks;
 mod driver;
+mod e2;
 mod exec;
+mod kinds;
+mod seq;
+mod serdechk;
+mod types;
 mod lin;
 mod litmus;
 mod prog;
@@ -30,16 +37,19 @@ fn main() {
             let widx: u64 = args[3].parse().unwrap();
             let n: usize = args[4].parse().unwrap();
             let seed: u64 = args[5].parse().unwrap();
-            driver::worker(id, widx, n, seed, &args[6])
+            if checks::e1_check(id).is_some() {
+                driver::worker(id, widx, n, seed, &args[6])
+            } else {
+                e2::worker(id, widx, n, seed, &args[6])
+            }
         }
         Some("run") => {
             let id = args.get(2).unwrap_or_else(|| usage());
             let tier = args.get(3).map(|s| s.as_str()).unwrap_or("quick");
-            if checks::e1_check(id).is_some() {
-                driver::parent(id, tier)
+            if id == "C19" {
+                e2::c19(tier)
             } else {
-                eprintln!("no check for {}", id);
-                2
+                driver::parent(id, tier)
             }
         }
         Some("replay") => driver::replay(args.get(2).unwrap_or_else(|| usage())),
